@@ -1,7 +1,7 @@
 (* C01 — a snapshot shows exactly what TTML makes active at t.
    M = Model/Isd.v (transcription of ISD._process_element and helpers), S = Spec/IsdSpec.v (per-leaf, path-based
    reading of TTML2 time containment, region association and display).  For every document and rational t. *)
-From TT Require Import Model.Doc Gen.StyleTables Model.Isd Spec.IsdSpec.
+From TT Require Import Model.Doc Gen.StyleTables Model.Isd Spec.IsdSpec Spec.DocWf.
 From TT Require Import Proofs.C01.Leaves Proofs.C01.Display Proofs.C01.Lwsp Proofs.C01.Main.
 
 (* time containment: begin inclusive, end exclusive, offsets relative to the parent's begin, end clipped *)
@@ -35,6 +35,28 @@ Theorem C01_snapshot_regions : forall l rs, collect_regions l = Ok rs ->
   exists outs, Forall2 (fun r o => r = Ok o) l outs /\ rs = flat_map (fun o => match o with Some e => [e] | None => [] end) outs.
 Proof. exact collect_regions_spec. Qed.
 
+(* the hypothesis `leaf_wf` of the two theorems above is a consequence of the content model the model API enforces *)
+Theorem C01_wf_leaves : forall e, cm_ok e = true -> leaf_wf e = true.
+Proof. exact cm_ok_leaf_wf. Qed.
+
+(* TOP LEVEL: for every well-formed document (Spec/DocWf.v: the type tests of model.py's push_child methods; C15 shows the
+   API keeps documents inside it), every time and every snapshot the transcription produces: region by region, in
+   region order, each source region (the document's regions, or the default region when it declares none) either
+   appears under its own id showing exactly the leaves the per-leaf TTML2 specification prescribes — active chain,
+   region-selected, displayed; once each, in document order — or is absent and the specification prescribes no leaf *)
+Theorem C01_snapshot : forall d t rs, doc_wf d = true -> isd d t = Ok rs ->
+  exists outs, Forall2 (region_matches d t) (snapshot_sources d) outs /\
+               rs = flat_map (fun o => match o with Some e => [e] | None => [] end) outs.
+Proof. exact snapshot_spec. Qed.
+(* `isd d t = Ok rs` fails only through the recorded finding ruby-inactive-annotation (Ruby/Rtc.push_children) or a
+   style computation that raises (C03/C18) *)
+
+Example C01_snapshot_example :
+  doc_wf c01_ex_doc = true /\
+  (exists rs, isd c01_ex_doc (Qmake 1 1) = Ok rs /\ map (fun r => leaves_opt (Some r)) rs = [[LText [120%Z]]; []]) /\
+  (exists rs, isd c01_ex_doc (Qmake 2 1) = Ok rs /\ map (fun r => leaves_opt (Some r)) rs = [[]; []]).
+Proof. exact snapshot_spec_example. Qed.
+
 (* non-vacuity and boundary inclusivity: begin is inclusive, end exclusive *)
 Example C01_boundaries :
   is_active (Qmake 2 1) (Qmake 2 1, Some (Qmake 5 1)) = true /\ is_active (Qmake 5 1) (Qmake 2 1, Some (Qmake 5 1)) = false.
@@ -42,4 +64,5 @@ Proof. split; reflexivity. Qed.
 
 Print Assumptions C01_interval.  Print Assumptions C01_active.  Print Assumptions C01_display.
 Print Assumptions C01_lwsp_conservative.  Print Assumptions C01_leaves_element.  Print Assumptions C01_leaves_region.
-Print Assumptions C01_snapshot_regions.
+Print Assumptions C01_snapshot_regions.  Print Assumptions C01_wf_leaves.  Print Assumptions C01_snapshot.
+Print Assumptions C01_snapshot_example.
